@@ -15,7 +15,7 @@ import regen_c01
 PID = "C01"
 sys.set_int_max_str_digits(0)
 THEOREMS = ["ivt_inverse", "ivt_words_untouched_elsewhere", "ivt_words_describe", "flags_decode", "len_is_sum_plain_crc",
-            "mbi_roundtrip_plain_crc", "mbi_roundtrip_signed_v1", "mbi_roundtrip_signed_v21", "mbi_roundtrip_encrypted", "history_export_is_current_state", "repaired_findings_hold", "reloc_table_roundtrip", "reexport_stable", "mro_resolution_all_classes", "wf_class_sweep",
+            "mbi_roundtrip_plain_crc", "mbi_roundtrip_signed_v1", "mbi_roundtrip_signed_v21", "mbi_roundtrip_encrypted", "mbi_roundtrip_bca", "database_offers_classified", "history_export_is_current_state", "repaired_findings_hold", "reloc_table_roundtrip", "reexport_stable", "mro_resolution_all_classes", "wf_class_sweep",
             "class_selection_sweep", "class_selection_refuted", "manifest_flags_and_is_bitwise", "disassemble_cuts_collect",
             "hmac_finalize_inverse"]
 MIXIN_IDS = regen_c01.MIXIN_IDS
@@ -1136,7 +1136,7 @@ def run(tier):
         rep.obligation("translate:device database + mbi_mixin classes -> Gen/GenMbi.v", False, repr(ex))
     model_ok, mlog = vlib.coq_make(["Model/MbiIoModel.vo"])
     bca_model_ok, bmlog = vlib.coq_make(["Model/MbiBcaIoModel.vo"]) if model_ok else (False, mlog)
-    vlib.check_theorems(rep, PID, THEOREMS, ["Proofs/MbiProofs.vo", "Proofs/MbiRtProofs.vo", "Proofs/MbiKindsProofs.vo", "Proofs/MbiEncProofs.vo", "Proofs/MbiHistProofs.vo", "Proofs/MbiSweepProofs.vo"])
+    vlib.check_theorems(rep, PID, THEOREMS, ["Proofs/MbiProofs.vo", "Proofs/MbiRtProofs.vo", "Proofs/MbiKindsProofs.vo", "Proofs/MbiEncProofs.vo", "Proofs/MbiHistProofs.vo", "Proofs/MbiSweepProofs.vo", "Proofs/MbiBcaProofs.vo"])
     vlib.audit(rep)
     if d is None:
         try:
@@ -1349,12 +1349,12 @@ def run(tier):
              "lengths cover every residue mod 4 and mod 16 and the 512-byte boundaries up to 2 KiB; options drawn from VERIF_SEED; "
              "distinct_nontrivial counts distinct (composition, image length, option set) triples the builder accepted",
         trusted_base=["Coq 8.16.1 kernel + vm_compute", "tools/regen_c01.py (database / class extraction through the SPSDK API)",
-                      "hand model Model/MbiModel.v tied by correspondence",
+                      "hand models Model/MbiModel.v and Model/MbiBcaModel.v (BCA/FCF families) tied by correspondence",
                       "primitive outputs (signature, HMAC, AES-CTR key stream, digest) are inputs of the model: C02/C09",
                       "certificate blocks are byte strings with a length: C03", "CPython semantics of the untranslated code"],
-        checker_cmd="coqc -R . V Props/C01/*.v (after make Proofs/MbiProofs.vo Proofs/MbiRtProofs.vo Proofs/MbiKindsProofs.vo Proofs/MbiEncProofs.vo Proofs/MbiHistProofs.vo Proofs/MbiSweepProofs.vo)",
+        checker_cmd="coqc -R . V Props/C01/*.v (after make Proofs/MbiProofs.vo Proofs/MbiRtProofs.vo Proofs/MbiKindsProofs.vo Proofs/MbiEncProofs.vo Proofs/MbiHistProofs.vo Proofs/MbiSweepProofs.vo Proofs/MbiBcaProofs.vo)",
         assumptions=["latest revision of every family", "application given as a raw binary file (ELF/S19/HEX loading is C16)",
-                     "BCA/FCF based families (mc56f81xxx, mwct20xx, mcxc) are exercised by the oracles only, not modelled",
+                     "BCA/FCF based families: BCA / FCF register areas (mcxc) and the ISK public key check (Vx) are inputs of the model (C11/C12, C03/C08)",
                      "X.509 / certificate block content is opaque (length and header words only)"])
 
 
